@@ -46,11 +46,16 @@ fn(H2 + "._send_data", params={"stream_id": "int"}, task="send",
        "h2_window(self.connection, stream_id) <= 0 or h2_max_frame(self.connection) <= 0 or len(map_val(self.stream_buffers, stream_id).buffer) == 0", "C08,C09,C02")],
        # C05 "never bytes that parse as a complete response": END_STREAM goes out only for a
        # stream whose layer asked for it (EndBody / EndData), never for a buffer that was closed
-       "H2Connection.end_stream": [("C05.h2.no-false-end", "map_val(self.stream_buffers, stream_id).g_end_requested", "C05,C02")]}},
+       "H2Connection.end_stream": [("C05.h2.no-false-end", "map_val(self.stream_buffers, stream_id).g_end_requested", "C05,C02"),
+                                   # C09: END_STREAM only after all of the stream's data has gone out
+                                   ("C09.end.after-all-data", "len(map_val(self.stream_buffers, stream_id).buffer) == 0", "C09,C02")]}},
    requires=[("send_data.pre.scheduled", "stream_id != 0 and sel(self.priority.has, stream_id) and in_map(self.stream_buffers, stream_id)")],
    ensures=[
        ("C09.order.same-stream", "trace_all('h2', 'x', x[1] == stream_id)", "C09,C02"),
-       ("C09.end-once", "trace_all('h2', 'x', True)", "C09"),
+       # exactly one END_STREAM: it is the last thing sent for the stream, and the send buffer is
+       # unregistered with it, so the stream is never scheduled (or ended) again
+       ("C09.end-once", "implies(trace_any('h2', 'x', x[0] == 'end_stream'), emitted('h2')[n_emitted('h2') - 1][0] == 'end_stream' "
+        "and not in_map(self.stream_buffers, stream_id))", "C09,C02"),
    ],
    props=("C04", "C09"))
 
@@ -58,12 +63,23 @@ import importlib.util as _u, os as _o
 _s = _u.spec_from_file_location("a_events", _o.path.join(_o.path.dirname(__file__), "a_events.py"))
 _ev = _u.module_from_spec(_s); _s.loader.exec_module(_ev)
 
-fn(H2 + ".send_task", params={}, task="send", loops={0: {"locals": {"stream_id": "int"}}}, props=("C04", "C09"))
+fn(H2 + ".send_task", params={}, task="send",
+   loops={0: {"locals": {"stream_id": "int"},
+              # C09 "quiescent rather than spinning": every round of the send task either sends for a
+              # schedulable stream or waits for the has_data signal (and re-arms it) -- never neither
+              "body_ensures": [("C09.quiescent", "count_calls('H2Protocol._send_data') == 1 or (count_calls('Event.wait') == 1 and count_calls('Event.clear') == 1 "
+                                "and call_index('Event.wait') < call_index('Event.clear'))", "C09,C08")]}},
+   props=("C04", "C09"))
 
 fn(H2 + ".handle", params={"event": _ev.IO_EVENTS}, task="reader",
    loops={0: {"invariant": [("handle.loop.closed", "self.closed")]}},
    ensures=[
        ("C03.h2.closed-flag", "implies(isinstance(event, Closed), self.closed)", "C03,C07"),
+       # C01.h2.feed: what was read is what h2 gets, once
+       ("C01.h2.feed", "implies(isinstance(event, RawData), n_emitted('h2_in') == 1 and emitted('h2_in')[0] == event.data)", "C01,C10"),
+       # C04: a protocol violation ends the connection: what h2 queued (GOAWAY) is flushed, then Closed
+       ("C04.h2.violation-closes", "implies(isinstance(event, RawData) and not trace_any('calls', 'c', c[0] == 'H2Protocol._handle_events'), "
+        "count_calls('H2Protocol._flush') == 1 and last_is('sent', Closed))", "C04"),
    ],
    props=("C04",))
 
@@ -75,6 +91,17 @@ fn(H2 + ".stream_send", params={"event": _ev.STREAM_EVENTS}, task="app",
        # closed, or the end of the stream has been requested (EndBody / EndData came first) so that
        # the send task ends it once drained.  After an application failure nothing has requested
        # the end, so only a reset satisfies the clause.
+       # C02 (HTTP/2): the response head carries :status first, then the application's headers in
+       # order, then the server's own; one HEADERS per Response event unless h2 refuses it (stream
+       # or connection already closed / header validation), which stream_send swallows
+       ("C02.h2.headers", "implies(isinstance(event, (InformationalResponse, Response)), (n_emitted('h2') == 1 or n_emitted('h2_refused') >= 1) "
+        "and implies(n_emitted('h2') == 1, emitted('h2')[0][0] == 'send_headers' and emitted('h2')[0][1] == event.stream_id "
+        "and emitted('h2')[0][2][0] == (b':status', b'%d' % event.status_code) and starts_with_seq(emitted('h2')[0][2][1:], event.headers)))", "C02"),
+       # ... body bytes go to the stream's send buffer unchanged (unless the stream is gone)
+       ("C02.h2.body", "implies(isinstance(event, (Body, Data)) and in_map(old(self.stream_buffers), event.stream_id) and sel(old(self.priority.has), event.stream_id), "
+        "count_calls('StreamBuffer.push') == 1 and call_args('StreamBuffer.push')[1] == event.data)", "C02,C10"),
+       ("C02.h2.end", "implies(isinstance(event, (EndBody, EndData)) and in_map(old(self.stream_buffers), event.stream_id), count_calls('StreamBuffer.set_complete') == 1)", "C02"),
+       ("C02.h2.trailers", "implies(isinstance(event, Trailers) and n_emitted('h2') == 1, emitted('h2')[0][0] == 'send_headers' and emitted('h2')[0][1] == event.stream_id and emitted('h2')[0][2] == event.headers)", "C02"),
        ("C05.h2.reset", "implies(isinstance(event, StreamClosed), not h2_sendable(self.connection, event.stream_id) "
         "or (in_map(self.stream_buffers, event.stream_id) and map_val(self.stream_buffers, event.stream_id).g_end_requested))", "C05"),
    ],
@@ -101,8 +128,23 @@ fn(H2 + "._handle_events", params={"events": "obj pyvc:H2Events"}, task="reader"
    props=("C04",))
 
 fn(H2 + "._create_stream", params={"request": "obj h2.events:RequestReceived"}, task="reader",
-   loops={0: {"locals": {"method": "str", "raw_path": "bstr"}}},
-   ensures=[("C18.ka.h2.counted", "self.keep_alive_requests == old(self.keep_alive_requests) + 1", "C18")],
+   loops={0: {"locals": {"method": "str", "raw_path": "bstr"},
+              # the regular headers (after the pseudo-headers) do not change what was taken from :method / :path
+              "invariant": [("C01.h2.scan", "method == old(method) and raw_path == old(raw_path)", "C01")]}},
+   ensures=[
+       # C01.h2.request: one stream object per request, handed one Request event with the method
+       # (upper-cased) and path of the pseudo-headers, the filtered header list, version "2", the
+       # request's stream id and the connection's state
+       ("C01.h2.request", "count_calls('Stream.handle') == 1 and isinstance(call_args('Stream.handle')[1], Request) and call_args('Stream.handle')[1].stream_id == request.stream_id "
+        "and call_args('Stream.handle')[1].http_version == '2' and same(call_args('Stream.handle')[1].state, self.connection_state) "
+        "and call_args('Stream.handle')[1].method == pseudo(request.headers, b':method').decode('ascii').upper() "
+        "and call_args('Stream.handle')[1].raw_path == pseudo(request.headers, b':path')", "C01"),
+       ("C01.h2.request.headers", "count_calls('filter_pseudo_headers') == 1 and call_args('filter_pseudo_headers')[0] == request.headers "
+        "and call_args('Stream.handle')[1].headers == call_result('filter_pseudo_headers')", "C01"),
+       ("C01.h2.request.wiring", "same(call_args('Stream.handle')[0].app, self.app) and same(call_args('Stream.handle')[0].client, self.client) and same(call_args('Stream.handle')[0].server, self.server) "
+        "and call_args('Stream.handle')[0].stream_id == request.stream_id "
+        "and call_args('Stream.handle')[0].scheme == (('wss' if self.ssl else 'ws') if isinstance(call_args('Stream.handle')[0], WSStream) else ('https' if self.ssl else 'http'))", "C01"),
+       ("C18.ka.h2.counted", "self.keep_alive_requests == old(self.keep_alive_requests) + 1", "C18")],
    props=("C04", "C01", "C18"))
 
 fn(H2 + "._window_updated", params={"stream_id": "opt int"}, task="reader",
